@@ -142,6 +142,27 @@ def gen(rng, idx, tier):
             kerning.append([rng.choice(letters), rng.choice(neutral), -30])
         if len(neutral) >= 2 and rng.random() < 0.5:
             kerning.append([neutral[0], neutral[1], -15])
+    # ---- a right-to-left script whose ONLY kerning is against a European digit: such pairs are
+    # dropped by the kern writer (ambiguous direction), so the script must end up without any
+    # generated kerning - and without a script entry made by the kern writer
+    ambiguous_only = None
+    rtl_unkerned = [s_ for s_ in scripts if s_ in S.RTL_SCRIPTS and s_ not in kerned]
+    if rtl_unkerned and not chain and rng.random() < 0.6:
+        s_ = rng.choice(rtl_unkerned)
+        letters = [n for n, d in desc.items() if d["kind"] == "letter" and d["script"] == [s_]]
+        digits = [n for n, d in desc.items() if d["unicodes"] and all(0x30 <= u <= 0x39 for u in d["unicodes"])]
+        if not digits:
+            glyphs.append(S._spec(rng, "one", [0x31]))
+            desc["one"] = S.describe("one", [0x31], "digit")
+            by_name["one"] = glyphs[-1]
+            digits = ["one"]
+        if letters:
+            # (the writer builds its per-script lookups in the order the pairs come: first or last)
+            at = 0 if rng.random() < 0.6 else len(kerning)
+            kerning.insert(at, [rng.choice(letters), digits[0], -35])
+            if rng.random() < 0.5:
+                kerning.insert(at, [digits[0], rng.choice(letters), -25])
+            ambiguous_only = s_
     # ---- an encoded source glyph of a foreign script that is NOT exported, next to a kerned
     # exported glyph whose script extensions include that foreign script
     skip_export, foreign = [], None
@@ -232,6 +253,7 @@ def gen(rng, idx, tier):
         "lib": rng.choice(["defcon", "ufoLib2"]),
         "scripts": scripts,
         "kerned_scripts": kerned,
+        "ambiguous_only": ambiguous_only,
         "foreign": foreign,
         "ufo": {"glyphs": glyphs, "info": {"unitsPerEm": 1000, "familyName": "T", "styleName": "R",
                                            "ascender": 800, "descender": -200},
@@ -278,6 +300,8 @@ def run(case):
             counters["default_" + k] = counters.get("default_" + k, 0) + n
 
     bump("cases")
+    if case.get("ambiguous_only"):
+        bump("rtl_script_whose_only_kerning_is_dropped_as_ambiguous")
     if case.get("foreign"):
         counters["foreign_exported_control" if case["foreign"]["exported"]
                  else "foreign_skipped_cases"] = 1
@@ -425,6 +449,11 @@ def run(case):
                     "detail": {"script": tag, "language": lang, "declared_by_languagesystem": is_declared,
                                "reachable_features": {k: sorted(v) for k, v in sorted(reach.items())},
                                "missing": missing,
+                               # glyphs of this script that the kerning reachable here acts on
+                               "kerned_glyphs_of_script": sorted({
+                                   g for li, glyphs in kern
+                                   if any(li in reach.get(k, ()) for k in KERN_TAGS)
+                                   for g in glyphs if belongs(g, tag)})[:8],
                                "script_list": {s: sorted(otl.reachable(graph, e["dflt"] or []))
                                                for s, e in sorted(graph["scripts"].items())},
                                "languagesystems": sorted((s, sorted(l)) for s, l in declared.items())}})
@@ -452,6 +481,10 @@ def classify(v, case):
         return None
     if tag == "DFLT":
         return KNOWN_KEY
+    if not d.get("kerned_glyphs_of_script"):
+        # the listed mechanism registers a script because it HAS kerning to deliver there; a
+        # script entry whose generated kerning acts on none of its glyphs is something else
+        return None
     skipped = set((case["ufo"].get("lib") or {}).get("public.skipExportGlyphs") or [])
     for g in case["ufo"]["glyphs"]:
         if g["name"] in skipped:
